@@ -94,7 +94,7 @@ func Load(o LoadOptions) (*Program, error) {
 	}
 	env = append(env, "GOWORK=off", "GOFLAGS=-mod=mod", "GOPROXY=off", "GOSUMDB=off", "GOTOOLCHAIN=local")
 	cfg := &packages.Config{
-		Mode:    packages.LoadSyntax,
+		Mode:    packages.LoadSyntax | packages.NeedModule,
 		Dir:     dir,
 		Env:     env,
 		Tests:   false,
